@@ -106,6 +106,13 @@ V("c14d-string-positions-gather-map", "C14", {"rule": "C14d", "contains": "posit
   (GSTATE, "        first_order_moments = self.xxpp_mean_vector\n        cov_xxpp = self.xxpp_covariance_matrix\n\n        second_order_moments = cov_xxpp / 2 + 0.5j * hbar * xp_symplectic_form(d)\n\n        return self._string_moment(first_order_moments, second_order_moments, string)", "        first_order_moments = self.xpxp_mean_vector\n        cov_xpxp = self.xpxp_covariance_matrix\n\n        second_order_moments = cov_xpxp / 2 + 0.5j * hbar * symplectic_form(d)\n\n        index_map = xxpp_to_xpxp_indices(d)\n        xpxp_string = [index_map[index] for index in string]\n\n        return self._string_moment(first_order_moments, second_order_moments, xpxp_string)"))
 V("c14d-string-positions-inverse-map", "C14", "silent",
   (GSTATE, "        first_order_moments = self.xxpp_mean_vector\n        cov_xxpp = self.xxpp_covariance_matrix\n\n        second_order_moments = cov_xxpp / 2 + 0.5j * hbar * xp_symplectic_form(d)\n\n        return self._string_moment(first_order_moments, second_order_moments, string)", "        first_order_moments = self.xpxp_mean_vector\n        cov_xpxp = self.xpxp_covariance_matrix\n\n        second_order_moments = cov_xpxp / 2 + 0.5j * hbar * symplectic_form(d)\n\n        index_map = xpxp_to_xxpp_indices(d)\n        xpxp_string = [index_map[index] for index in string]\n\n        return self._string_moment(first_order_moments, second_order_moments, xpxp_string)"))
+SSTEPS = "piquasso/_simulators/simulation_steps.py"
+V("c02f-sampler-counts-from-columns", "C02", {"rule": "C02f", "contains": "_sample_detected_outcomes"},
+  (SSTEPS, "    number_of_detectable_counts = detector_efficiency_matrix.shape[0]\n\n    detected_counts_by_mode = [", "    number_of_detectable_counts = detector_efficiency_matrix.shape[1]\n\n    detected_counts_by_mode = ["))
+V("c02f-actual-bound-from-rows", "C02", {"rule": "C02f", "contains": "_get_probabilities_by_mode"},
+  (SSTEPS, "    number_of_actual_counts = detector_efficiency_matrix.shape[1]", "    number_of_actual_counts = detector_efficiency_matrix.shape[0]"))
+V("c02f-sizes-by-unpacking", "C02", "silent",
+  (SSTEPS, "    number_of_detectable_counts = detector_efficiency_matrix.shape[0]\n\n    detected_counts_by_mode = [", "    n_detectable, _n_actual = detector_efficiency_matrix.shape\n    number_of_detectable_counts = n_detectable\n\n    detected_counts_by_mode = ["))
 # ------------------------------------------------------------------------------------------- C20
 V("c20-sub-add", "C20", {"rule": "C20c", "contains": "Sub"}, (EXPR, "ast.Sub: op.sub", "ast.Sub: op.add"))
 V("c20-lt-le", "C20", {"rule": "C20c", "contains": "Lt"}, (EXPR, "ast.Lt: op.lt", "ast.Lt: op.le"))
